@@ -32,12 +32,20 @@ class Parser(Emitter):
         except Exception as e:
             if self.debug:
                 traceback.print_exc()
-            error = str(formulaserror.from_message(e))
+            error = self._error_code(e)
 
         if isinstance(result, formulaserror.XLError):
-            error = str(result)
+            error = self._error_code(result)
             result = None
         return {'result': result, 'error': error}
+
+    @staticmethod
+    def _error_code(err):
+        """ one of the canonical error codes, whatever the host handed us """
+        try:
+            return str(formulaserror.from_message(err))
+        except Exception:  # e.g. an exception whose __str__ itself fails
+            return str(formulaserror.ERROR)
 
     def set_function(self, name, f):
         self.functions[name] = f
